@@ -907,14 +907,14 @@ def _async_worker(
                     for idx, possible_agent in enumerate(agents)
                 }
                 observation, reward, terminated, truncated, info = env.step(data)
-                transition = observation, reward, terminated, truncated, info
                 if all(
                     [
-                        term | trunc
-                        for term, trunc in zip(terminated.values(), truncated.values())
+                        bool(terminated[agent]) or bool(truncated.get(agent, False))
+                        for agent in terminated.keys()
                     ]
                 ):
                     observation, info = env.reset()
+                transition = observation, reward, terminated, truncated, info
                 observation, reward, terminated, truncated, info = process_transition(
                     transition,
                     observation_space,
